@@ -56,6 +56,11 @@ func newLockSUT(topo *Topo, withApproval bool) *lockSUT {
 	s.step(Action{"a": "bind", "p": "p1", "c": "c11", "s": "S1", "ft": "LoadControl", "ack": false})
 	s.step(Action{"a": "sub", "p": "p1", "c": "c12", "s": "S1", "ft": "LoadControl", "ack": false})
 	s.step(Action{"a": "lsub", "k": "K1", "p": "p2", "r": "s14"})
+	// the first peer has a fourth entity (the nested [1,1]) and subscriptions from three of its entities
+	s.step(Action{"a": "ann", "p": "p1", "kind": "partial", "dev": "own", "ack": false,
+		"items": []any{map[string]any{"e": "1.1", "chg": "added", "fs": []any{"n11"}, "v": float64(1)}}})
+	s.step(Action{"a": "sub", "p": "p1", "c": "c21", "s": "S2", "ft": "LoadControl", "ack": false})
+	s.step(Action{"a": "sub", "p": "p1", "c": "n11", "s": "S4", "ft": "LoadControl", "ack": false})
 	l.ent3 = spine.NewEntityLocal(s.dev, model.EntityTypeTypeCEM, entAddr("3"), 0)
 	l.ent3.GetOrAddFeature(model.FeatureTypeTypeMeasurement, model.RoleTypeServer)
 	l.hbEnt = spine.NewEntityLocal(s.dev, model.EntityTypeTypeCEM, entAddr("5"), time.Hour)
@@ -428,22 +433,27 @@ func pairProbe(args []string) {
 	holders := []struct {
 		A    Action
 		Hook string
+		Skip int // further arrivals at the hook before the other operation runs (parked deeper inside the loop)
 	}{
-		{Action{"a": "disconnect", "p": "p1"}, "Events.snapshot"},
-		{Action{"a": "entrem", "p": "p1", "e": "1", "dev": "own", "ack": true}, "Events.snapshot"},
-		{S("p1", "c21", "S2", "LoadControl"), "AddSubscription.inserted"},
-		{S("p1", "c21", "S2", "LoadControl"), "Events.snapshot"},
-		{B("p1", "c12", "S2", "LoadControl"), "AddBinding.inserted"},
-		{B("p1", "c12", "S2", "LoadControl"), "AddBinding.afterCheck"},
-		{Action{"a": "unsub", "p": "p1", "c": "c12", "s": "S1", "dev": "own", "sdev": "own", "ack": true}, "Events.snapshot"},
-		{Action{"a": "unbind", "p": "p1", "c": "c11", "s": "S1", "dev": "own", "sdev": "own", "ack": true}, "Events.snapshot"},
+		{Action{"a": "disconnect", "p": "p1"}, "Events.snapshot", 0},
+		{Action{"a": "entrem", "p": "p1", "e": "1", "dev": "own", "ack": true}, "Events.snapshot", 0},
+		{S("p1", "c21", "S2", "LoadControl"), "AddSubscription.inserted", 0},
+		{S("p1", "c21", "S2", "LoadControl"), "Events.snapshot", 0},
+		{B("p1", "c12", "S2", "LoadControl"), "AddBinding.inserted", 0},
+		{B("p1", "c12", "S2", "LoadControl"), "AddBinding.afterCheck", 0},
+		{Action{"a": "unsub", "p": "p1", "c": "c12", "s": "S1", "dev": "own", "sdev": "own", "ack": true}, "Events.snapshot", 0},
+		{Action{"a": "unbind", "p": "p1", "c": "c11", "s": "S1", "dev": "own", "sdev": "own", "ack": true}, "Events.snapshot", 0},
 		// parked while scanning the registry (inside the loop of the read-modify-write)
-		{Action{"a": "unbind", "p": "p1", "c": "c11", "s": "S1", "dev": "own", "sdev": "own", "ack": true}, "RemoveBinding.scan"},
-		{Action{"a": "unsub", "p": "p1", "c": "c12", "s": "S1", "dev": "own", "sdev": "own", "ack": true}, "RemoveSubscription.scan"},
-		{Action{"a": "entrem", "p": "p1", "e": "1", "dev": "own", "ack": true}, "RemoveBindingsForEntity.scan"},
-		{Action{"a": "entrem", "p": "p1", "e": "1", "dev": "own", "ack": true}, "RemoveSubscriptionsForEntity.scan"},
-		{Action{"a": "disconnect", "p": "p1"}, "RemoveBindingsForEntity.scan"},
-		{Action{"a": "disconnect", "p": "p1"}, "RemoveSubscriptionsForEntity.scan"},
+		{Action{"a": "unbind", "p": "p1", "c": "c11", "s": "S1", "dev": "own", "sdev": "own", "ack": true}, "RemoveBinding.scan", 0},
+		{Action{"a": "unsub", "p": "p1", "c": "c12", "s": "S1", "dev": "own", "sdev": "own", "ack": true}, "RemoveSubscription.scan", 0},
+		{Action{"a": "entrem", "p": "p1", "e": "1", "dev": "own", "ack": true}, "RemoveBindingsForEntity.scan", 0},
+		{Action{"a": "entrem", "p": "p1", "e": "1", "dev": "own", "ack": true}, "RemoveSubscriptionsForEntity.scan", 0},
+		{Action{"a": "disconnect", "p": "p1"}, "RemoveBindingsForEntity.scan", 0},
+		{Action{"a": "disconnect", "p": "p1"}, "RemoveSubscriptionsForEntity.scan", 0},
+		// ... parked while the teardown is at the second / third entity of the device
+		{Action{"a": "disconnect", "p": "p1"}, "RemoveSubscriptionsForEntity.scan", 5},
+		{Action{"a": "disconnect", "p": "p1"}, "RemoveSubscriptionsForEntity.scan", 10},
+		{Action{"a": "disconnect", "p": "p1"}, "RemoveBindingsForEntity.scan", 2},
 	}
 	others := []Action{
 		S("p2", "c21", "S2", "LoadControl"), S("p2", "c12", "S1", "LoadControl"), B("p2", "c12", "S2", "LoadControl"),
@@ -453,7 +463,11 @@ func pairProbe(args []string) {
 		Action{"a": "disconnect", "p": "p2"},
 		Action{"a": "lsub", "k": "K1", "p": "p1", "r": "s14"}, Action{"a": "lunsub", "k": "K1", "p": "p2", "r": "s14"},
 		Action{"a": "setdata", "s": "S2", "fn": "limit", "v": float64(2)},
-		Action{"a": "write", "p": "p2", "c": "c13", "s": "S3", "fn": "kv", "v": float64(2), "ack": true, "fel": "none", "ofn": "limit"},
+		Action{"a": "write", "p": "p2", "c": "c13", "s": "S3", "fn": "kv", "v": float64(2), "ack": true, "fel": "none", "ofn": "limit", "hdev": "own"},
+		// the same peer's own messages, processed while its teardown / registry operation is parked
+		// (removals only: a request of a peer that is processed while that very peer's connection is being removed can leave
+		// a registry entry of a removed device behind - in-flight message against teardown, outside C10's quantifier)
+		Action{"a": "entrem", "p": "p1", "e": "2", "dev": "own", "ack": true}, Action{"a": "entrem", "p": "p1", "e": "1", "dev": "own", "ack": true},
 	}
 	idx := 0
 	for _, h := range holders {
@@ -474,6 +488,9 @@ func pairProbe(args []string) {
 			ha, ob := h.A, o
 			sched.Add("H", []string{h.Hook}, func() { s.pairExec(ha) })
 			at, ok := sched.Step("H")
+			for k := 0; k < h.Skip && ok && at == h.Hook; k++ {
+				at, ok = sched.Step("H")
+			}
 			line.Parked = ok && at == h.Hook
 			oc := guarded(func() { s.pairExec(ob) })
 			pv, done := waitDone(oc, 120*time.Millisecond)
@@ -481,7 +498,7 @@ func pairProbe(args []string) {
 			if pv != "" {
 				line.Panic = pv
 			}
-			for i := 0; i < 8; i++ {
+			for i := 0; i < 40; i++ {
 				if sp := sched.procs["H"]; sp.done {
 					break
 				}
